@@ -71,6 +71,7 @@ fn main() {
         "churn" => crash::churn(&args, &mut sink),
         "placement" => crash::placement(&args, &mut sink),
         "flock" => flock::run(&args, &mut sink),
+        "flock-queued" => flock::drop_with_queued_writes(&args, &mut sink),
         "stress" => stress::run(&args, &mut sink),
         "locks-scenarios" => locksdemo::scenarios(&mut sink),
         "rtlock-scenarios" => rtlock::scenarios(&mut sink),
